@@ -3,6 +3,7 @@ import ast
 import itertools
 
 from ..core import AnalysisError, src, body_walk, walk_no_nested, parent
+from .. import sem as _sem
 from ..cfg import CFG, Flow
 from ..locks import holds
 from ..guards import tri_eval, tri_vars, NONE, FALSY, TRUTHY
@@ -123,10 +124,57 @@ def check(chk):
     chk.judge(ok, 'C42.rebuild', rf, 'token map rebuilt exactly when a partitioner is known and the flag is set', 'rebuild guard changed')
     init = [st for st in rf.body if isinstance(st, ast.Assign) and src(st.targets[0]) == 'should_rebuild_token_map']
     chk.judge(len(init) == 1 and src(init[0].value) == 'force_token_rebuild or self._cluster.metadata.partitioner is None', 'C42.rebuild', rf, 'flag starts as forced / nothing built yet', 'initial flag changed')
-    chk.judge('token_map[host] = tokens' in src(lp) and 'partitioner and tokens and self._token_meta_enabled' in src(lp), 'C42.rebuild', lp, 'peer tokens collected per host when token metadata is enabled', 'token collection changed')
+    # tokens: with unchanged membership the tokens collected from the rows still decide - some contribution to the flag, made after every row
+    # was read, is computed from the collected {host: tokens}; it can only raise the flag
+    chk.rule('C42.tokens', 'after the row loop the rebuild flag also depends on the collected token_map (a comparison with the tokens the current map was built from) and is only raised by it')
+    loops_ = [n for n in g.stmt_nodes() if n.kind == 'for_iter' and src(n.ast.iter) == 'peers_result']
+    if len(loops_) != 1 or len(rb) != 1:
+        raise AnalysisError('_refresh_node_list_and_token_map: peers loop / rebuild call not recognised')
+    contrib = []
+    for n in g.stmt_nodes():
+        if n.kind == 'stmt' and isinstance(n.ast, (ast.Assign, ast.AugAssign)):
+            tg = n.ast.targets if isinstance(n.ast, ast.Assign) else [n.ast.target]
+            if any(src(t) == 'should_rebuild_token_map' for t in tg) and any(isinstance(x, ast.Name) and x.id == 'token_map' for x in ast.walk(n.ast.value)):
+                contrib.append(n)
+    in_loop = set(id(x) for x in ast.walk(loops_[0].ast))
+    after = [n for n in contrib if id(n.ast) not in in_loop and n.ast.lineno > loops_[0].ast.end_lineno and g.dominates(loops_[0], n)]
+    chk.judge(bool(after), 'C42.tokens', rf, 'the collected tokens are compared with the current token map after the last row (%s)' % [src(n.ast)[:90] for n in after],
+              'no contribution to the rebuild flag reads the collected tokens: when a known node now owns other tokens (same hosts, same datacenters) the refresh keeps the old token map, '
+              'get_replicas answers from the old ring and token-aware routing sends statements to nodes that no longer own the row')
+    for n in after:
+        v = n.ast.value
+        raise_only = isinstance(n.ast, ast.AugAssign) and isinstance(n.ast.op, ast.BitOr) or \
+            (isinstance(v, ast.BoolOp) and isinstance(v.op, ast.Or) and any(src(x) == 'should_rebuild_token_map' for x in v.values)) or \
+            all(fa.knows('should_rebuild_token_map') is False for fa, _c in fl.at(n))
+        chk.judge(raise_only, 'C42.tokens', n.ast, 'the token comparison only raises the flag (%s)' % src(n.ast)[:80],
+                  'the comparison overwrites a flag that a new / removed / relocated host has raised: with unchanged tokens the rebuild for the membership change is skipped')
+    td = chk.repo.mod(META).func('Metadata.token_ownership_differs')
+    gt, flt = _sem.flow_of(td)
+    for r in [n for n in gt.stmt_nodes() if n.kind == 'return']:
+        v = _sem.resolve(td, r.ast.value) if r.ast.value is not None else None
+        none_arm = all(fa.knows('current is None') is True or fa.knows('self.token_map is None') is True for fa, _c in flt.at(r))
+        if none_arm:
+            okr = isinstance(v, ast.Constant) and v.value is True
+            label = 'nothing built yet -> differs'
+        else:
+            okr = isinstance(v, ast.Compare) and len(v.ops) == 1 and isinstance(v.ops[0], ast.NotEq) and any('token_to_host_owner' in src(x) for x in (v.left, v.comparators[0]))
+            label = 'built map: the {token: host} owners computed from the rows != token_to_host_owner'
+        chk.judge(okr, 'C42.tokens', r.ast, 'token_ownership_differs: ' + label, 'the comparison no longer compares token ownership (%s)' % (src(r.ast)[:80]))
+    tm_ = [n for n in g.stmt_nodes() if n.kind == 'stmt' and isinstance(n.ast, ast.Assign) and src(n.ast.targets[0]) == 'token_map[host]' and any(x is n.ast for x in ast.walk(lp))]
+    okt = len(tm_) == 1
+    if okt:
+        val = n_ = tm_[0]
+        vname = src(tm_[0].ast.value)
+        defs_ = [x for x in ast.walk(lp) if isinstance(x, ast.Assign) and src(x.targets[0]) == vname]
+        for _i in range(3):     # a copy of a copy inside the loop body: follow it to the row access
+            if len(defs_) == 1 and isinstance(defs_[0].value, ast.Name):
+                defs_ = [x for x in ast.walk(lp) if isinstance(x, ast.Assign) and src(x.targets[0]) == defs_[0].value.id]
+        okt = len(defs_) == 1 and src(_sem.resolve(rf, defs_[0].value)) in ("row.get('tokens', None)", "row.get('tokens')") and \
+            all(fa.knows('partitioner') is True and fa.knows(vname) is True and fa.knows('self._token_meta_enabled') is True for fa, _c in fl.at(tm_[0])) and bool(list(fl.at(tm_[0])))
+    chk.judge(okt, 'C42.rebuild', lp, 'peer tokens collected per host when a partitioner is known, the row has tokens and token metadata is enabled', 'token collection changed')
     # location
     ul_ = cl.func('ControlConnection._update_location_info')
-    from .. import sem as _sem
+    pass
     gu, flu = _sem.flow_of(ul_)
 
     def _calls(text):
